@@ -38,6 +38,14 @@ def rnd(S):
     return pow2(S - 1) if S > 0 else 0
 
 
+@specfun
+def step(c: "array", n_len, taps: "array", D, L, S, n, odd):
+    """The amount a lifting step adds to / subtracts from the n-th updated position: the rounded, shifted weighted sum
+    of its clamped neighbours.  Kept opaque (unfolded only where a lift function's body is verified), so the
+    round-trip lemmas reason about it as an uninterpreted term and never see the division."""
+    return (wsum(c, n_len, taps, D, n, L, odd) + rnd(S)) // pow2(S)
+
+
 @inline
 def same_parity(c1, c2, n_len, par):
     """The two sequences agree on every index of parity `par` below n_len."""
@@ -57,6 +65,17 @@ def wsum_ext(c1: "array", c2: "array", n_len: int, taps: "array", D: int, n: int
         wsum_ext(c1, c2, n_len, taps, D, n, k - 1, odd)
 
 
+@lemma
+def step_ext(c1: "array", c2: "array", n_len: int, taps: "array", D: int, L: int, S: int, n: int, odd: int):
+    """step only reads positions of parity `odd` inside [0, n_len)."""
+    requires(n_len >= 2 and n_len % 2 == 0 and (odd == 0 or odd == 1))
+    requires(same_parity(c1, c2, n_len, odd))
+    ensures(step(c1, n_len, taps, D, L, S, n, odd) == step(c2, n_len, taps, D, L, S, n, odd))
+    unfold(step, c1, n_len, taps, D, L, S, n, odd)
+    unfold(step, c2, n_len, taps, D, L, S, n, odd)
+    wsum_ext(c1, c2, n_len, taps, D, n, L, odd)
+
+
 LIFT_ARGS = {"A": "list:int", "L": "int", "D": "int", "taps": "list:int", "S": "int"}
 LIFT_PRE = ["length(A) % 2 == 0 and length(A) >= 0", "L >= 0 and S >= 0 and length(taps) >= L", "A != taps"]
 
@@ -74,14 +93,14 @@ def _lift_contract(name, odd, sign):
             "same_parity(content(A), old(content(A)), length(A), %d)" % odd,
             # every updated position gets +/- the rounded, shifted weighted sum of its (unchanged) neighbours
             "forall(0, length(A), lambda j: implies(j %% 2 == %d, content(A)[j] == old(content(A))[j] %s "
-            "(wsum(old(content(A)), length(A), content(taps), D, j // 2, L, %d) + rnd(S)) // pow2(S)), trigger=lambda j: content(A)[j])" % (upd, sign, odd),
+            "step(old(content(A)), length(A), content(taps), D, L, S, j // 2, %d)), trigger=lambda j: content(A)[j])" % (upd, sign, odd),
         ],
         invariants={
             1: [
                 "length(A) == old(length(A))",
                 "same_parity(content(A), old(content(A)), length(A), %d)" % odd,
                 "forall(0, length(A), lambda j: implies(j %% 2 == %d and j // 2 < n, content(A)[j] == old(content(A))[j] %s "
-                "(wsum(old(content(A)), length(A), content(taps), D, j // 2, L, %d) + rnd(S)) // pow2(S)), trigger=lambda j: content(A)[j])" % (upd, sign, odd),
+                "step(old(content(A)), length(A), content(taps), D, L, S, j // 2, %d)), trigger=lambda j: content(A)[j])" % (upd, sign, odd),
                 "forall(0, length(A), lambda j: implies(j %% 2 == %d and j // 2 >= n, content(A)[j] == old(content(A))[j]), trigger=lambda j: content(A)[j])" % upd,
             ],
             2: [
@@ -91,6 +110,7 @@ def _lift_contract(name, odd, sign):
         ghost={
             "loop2.before": ["unfold(wsum, old(content(A)), length(A), content(taps), D, n, 0, %d)" % odd],
             "loop2.body_end": ["unfold(wsum, old(content(A)), length(A), content(taps), D, n, i - D + 1, %d)" % odd],
+            "loop1.body_end": ["unfold(step, old(content(A)), length(A), content(taps), D, L, S, n, %d)" % odd],
         },
     ))
     cls.__module__ = __name__
@@ -125,7 +145,7 @@ def inverse_even(A: "list:int", L: int, D: int, taps: "list:int", S: int, add_fi
     assert length(A) == n_len
     if n_len >= 2:
         # the second step computes its sums from c1, whose odd entries equal c0's
-        apply_forall(wsum_ext, lambda m: (c1, c0, n_len, content(taps), D, m, L, 1), trigger=lambda m: wsum(c1, n_len, content(taps), D, m, L, 1))
+        apply_forall(step_ext, lambda m: (c1, c0, n_len, content(taps), D, L, S, m, 1), trigger=lambda m: step(c1, n_len, content(taps), D, L, S, m, 1))
     assert forall(0, n_len, lambda j: c2[j] == c0[j], trigger=lambda j: c2[j]), "C11.lifting-step-inverse (even positions)"
 
 
@@ -147,7 +167,7 @@ def inverse_odd(A: "list:int", L: int, D: int, taps: "list:int", S: int, add_fir
     c2 = content(A)
     assert length(A) == n_len
     if n_len >= 2:
-        apply_forall(wsum_ext, lambda m: (c1, c0, n_len, content(taps), D, m, L, 0), trigger=lambda m: wsum(c1, n_len, content(taps), D, m, L, 0))
+        apply_forall(step_ext, lambda m: (c1, c0, n_len, content(taps), D, L, S, m, 0), trigger=lambda m: step(c1, n_len, content(taps), D, L, S, m, 0))
     assert forall(0, n_len, lambda j: c2[j] == c0[j], trigger=lambda j: c2[j]), "C11.lifting-step-inverse (odd positions)"
 
 
@@ -158,6 +178,24 @@ def inverse_odd(A: "list:int", L: int, D: int, taps: "list:int", S: int, add_fir
 # outside in, that the sequence is restored: analysis stage j; (inner round trip); synthesis stage j.
 
 
+@lemma
+def stage_inverse(c0: "array", c1: "array", c1b: "array", c2: "array", n_len: int, taps: "array", D: int, L: int, S: int, odd: int, first_adds: bool):
+    """Pure-array form of 'a lifting step is undone by the opposite-sign step, whatever happened in between, as long
+    as the sequence was restored in between': c0 -step-> c1 ~ c1b -opposite step-> c2 implies c2 == c0 on [0, n_len).
+    The hypotheses are exactly the postconditions of lift1..lift4 (first_adds: the first step is the adding one)."""
+    requires(n_len >= 2 and n_len % 2 == 0 and (odd == 0 or odd == 1))
+    requires(same_parity(c1, c0, n_len, odd))
+    requires(forall(0, n_len, lambda j: implies(j % 2 == 1 - odd, c1[j] == c0[j] + (step(c0, n_len, taps, D, L, S, j // 2, odd) if first_adds
+                                                                                     else 0 - step(c0, n_len, taps, D, L, S, j // 2, odd))), trigger=lambda j: c1[j]))
+    requires(forall(0, n_len, lambda q: c1b[q] == c1[q], trigger=lambda q: c1b[q]))
+    requires(same_parity(c2, c1b, n_len, odd))
+    requires(forall(0, n_len, lambda j: implies(j % 2 == 1 - odd, c2[j] == c1b[j] + (0 - step(c1b, n_len, taps, D, L, S, j // 2, odd) if first_adds
+                                                                                      else step(c1b, n_len, taps, D, L, S, j // 2, odd))), trigger=lambda j: c2[j]))
+    ensures(forall(0, n_len, lambda q: c2[q] == c0[q], trigger=lambda q: c2[q]))
+    apply_forall(step_ext, lambda m: (c1b, c1, n_len, taps, D, L, S, m, odd), trigger=lambda m: step(c1b, n_len, taps, D, L, S, m, odd))
+    apply_forall(step_ext, lambda m: (c1, c0, n_len, taps, D, L, S, m, odd), trigger=lambda m: step(c1, n_len, taps, D, L, S, m, odd))
+
+
 @inline
 def rt_as(A, w, j):
     """analysis of stages j, j-1, ..., 0 followed by synthesis of stages 0, ..., j restores A."""
@@ -166,18 +204,19 @@ def rt_as(A, w, j):
         taps = list(stage.taps)
         c0 = content(A)
         n_len = length(A)
-        odd = 1 if (stage.lift_type == 1 or stage.lift_type == 2) else 0
-        ANALYSIS_LIFTING_FUNCTION_TYPES[stage.lift_type](A, stage.L, stage.D, taps, stage.S)
+        first = ANALYSIS_LIFTING_FUNCTION_TYPES[stage.lift_type]
+        second = SYNTHESIS_LIFTING_FUNCTION_TYPES[stage.lift_type]
+        # the contracts of lift1/lift2 describe steps reading odd positions, lift3/lift4 even positions; lift1/lift3 add
+        odd = 1 if (first is lift1 or first is lift2) else 0
+        first_adds = first is lift1 or first is lift3
+        first(A, stage.L, stage.D, taps, stage.S)
         c1 = content(A)
         rt_as(A, w, j - 1)
         assert forall(0, n_len, lambda q: content(A)[q] == c1[q], trigger=lambda q: content(A)[q]), "inner stages restored"
         c1b = content(A)  # equal to c1 on [0, n_len), possibly a different sequence object beyond
-        SYNTHESIS_LIFTING_FUNCTION_TYPES[stage.lift_type](A, stage.L, stage.D, taps, stage.S)
-        apply_forall(wsum_ext, lambda m: (c1b, c1, n_len, content(taps), stage.D, m, stage.L, odd),
-                     trigger=lambda m: wsum(c1b, n_len, content(taps), stage.D, m, stage.L, odd))
-        apply_forall(wsum_ext, lambda m: (c1, c0, n_len, content(taps), stage.D, m, stage.L, odd),
-                     trigger=lambda m: wsum(c1, n_len, content(taps), stage.D, m, stage.L, odd))
+        second(A, stage.L, stage.D, taps, stage.S)
         assert length(A) == n_len
+        stage_inverse(c0, c1, c1b, content(A), n_len, content(taps), stage.D, stage.L, stage.S, odd, first_adds)
         assert forall(0, n_len, lambda q: content(A)[q] == c0[q], trigger=lambda q: content(A)[q]), "C11.stage-restored"
 
 
@@ -189,18 +228,18 @@ def rt_sa(A, w, j, k):
         taps = list(stage.taps)
         c0 = content(A)
         n_len = length(A)
-        odd = 1 if (stage.lift_type == 1 or stage.lift_type == 2) else 0
-        SYNTHESIS_LIFTING_FUNCTION_TYPES[stage.lift_type](A, stage.L, stage.D, taps, stage.S)
+        first = SYNTHESIS_LIFTING_FUNCTION_TYPES[stage.lift_type]
+        second = ANALYSIS_LIFTING_FUNCTION_TYPES[stage.lift_type]
+        odd = 1 if (first is lift1 or first is lift2) else 0
+        first_adds = first is lift1 or first is lift3
+        first(A, stage.L, stage.D, taps, stage.S)
         c1 = content(A)
         rt_sa(A, w, j + 1, k)
         assert forall(0, n_len, lambda q: content(A)[q] == c1[q], trigger=lambda q: content(A)[q]), "inner stages restored"
         c1b = content(A)
-        ANALYSIS_LIFTING_FUNCTION_TYPES[stage.lift_type](A, stage.L, stage.D, taps, stage.S)
-        apply_forall(wsum_ext, lambda m: (c1b, c1, n_len, content(taps), stage.D, m, stage.L, odd),
-                     trigger=lambda m: wsum(c1b, n_len, content(taps), stage.D, m, stage.L, odd))
-        apply_forall(wsum_ext, lambda m: (c1, c0, n_len, content(taps), stage.D, m, stage.L, odd),
-                     trigger=lambda m: wsum(c1, n_len, content(taps), stage.D, m, stage.L, odd))
+        second(A, stage.L, stage.D, taps, stage.S)
         assert length(A) == n_len
+        stage_inverse(c0, c1, c1b, content(A), n_len, content(taps), stage.D, stage.L, stage.S, odd, first_adds)
         assert forall(0, n_len, lambda q: content(A)[q] == c0[q], trigger=lambda q: content(A)[q]), "C11.stage-restored"
 
 
